@@ -1025,7 +1025,8 @@ def replay_struct(payload, out, hooks_factory, cfg):
 EDIT_KINDS = ("new_cells_src", "set_param", "new_space", "del_space", "rename_space", "new_cells", "set_formula", "set_cached", "del_cells",
               "rename_cells", "add_bases", "remove_bases", "set_ref", "del_ref", "set_mref", "del_mref",
               "set_value", "clear", "clear_all", "clear_at", "allow_none",
-              "new_cells_obj", "set_formula_obj", "set_param_obj", "new_space_obj")
+              "new_cells_obj", "set_formula_obj", "set_param_obj", "new_space_obj",
+              "batch_cells_pandas", "batch_space_pandas", "batch_cells_module", "batch_space_module", "copy_space")
 
 
 def fresh_replay(ops, upto, name="F"):
